@@ -61,6 +61,7 @@ def cos(x):
 
 def _trig_axioms(t):
     ctx = C.cur()
+    ctx.keepalive.append(t)
     if _opt("pythagoras"):
         _ax("sin(x)^2+cos(x)^2=1")
         ctx.axiom(_sin(t) * _sin(t) + _cos(t) * _cos(t) == 1, ("pyth", t.get_id()))
